@@ -238,6 +238,11 @@ def _path_signatures(repo: Repo, f: Func, names: t.Dict[str, str]) -> t.List[t.T
 def diff(repo: Repo, a: Func, b: Func, names_a: t.Optional[t.Dict[str, str]] = None, names_b: t.Optional[t.Dict[str, str]] = None) -> t.Optional[t.Tuple[str, str, int]]:
     """None when the twins agree path by path (same decisions, calls with the same arguments in the same order,
     same stores, same result), else (what a does, what b does, index of the first differing step)."""
+    # a decorator replaces the function by whatever it returns (memoisation, retries ...): twins carry the same ones
+    da = sorted(unparse(d) for d in a.node.decorator_list if unparse(d) not in ("staticmethod", "classmethod"))
+    db = sorted(unparse(d) for d in b.node.decorator_list if unparse(d) not in ("staticmethod", "classmethod"))
+    if da != db:
+        return ("decorators " + (", ".join("@" + x for x in da) or "none"), "decorators " + (", ".join("@" + x for x in db) or "none"), 0)
     sa_, sb_ = _path_signatures(repo, a, names_a or {}), _path_signatures(repo, b, names_b or {})
     if sa_ == sb_:
         return None
